@@ -33,11 +33,18 @@ Fixpoint sum_from (f : Z -> option (Z * Z)) (lo : Z) (n : nat) (pos acc : Z) : Z
   end.
 Definition angle_sum (f : Z -> option (Z * Z)) (lo hi : Z) : Z := sum_from f lo (Z.to_nat (hi - lo + 1)) 1 0.
 
+Fixpoint apply_word_madctl (o : orient) (b : Z) (w : list oop) : outcome (orient * Z) :=
+  match w with
+  | [] => Ok (o, b)
+  | p :: w' => do o' <- apply_oop o p; apply_word_madctl o' (with_orientation b o') w'
+  end.
+
 Definition model_oout (c : ocase) : oout :=
   match c with
   | OWord o w =>
-      match apply_word o w with
-      | Ok o' => OWordOut ROk (rot_id (rotn o')) (mir o') (madctl_new false o' false false)
+      (* the byte is updated in place with with_orientation after every step of the word *)
+      match apply_word_madctl o (madctl_new false o false false) w with
+      | Ok (o', b) => OWordOut ROk (rot_id (rotn o')) (mir o') b
       | _ => OWordOut RPanic 0 false 0
       end
   | OAngles l => OAnglesOut (map angle_model l)
